@@ -940,7 +940,7 @@ class Message(ABC):
             value = self.__raw_get(name)
             if value is not PLACEHOLDER:
                 kwargs[name] = deepcopy(value)
-        return self.__class__(**kwargs)  # type: ignore
+        return self._copy_internal_state(self.__class__(**kwargs))  # type: ignore
 
     def __copy__(self: T, _: Any = {}) -> T:
         kwargs = {}
@@ -948,7 +948,14 @@ class Message(ABC):
             value = self.__raw_get(name)
             if value is not PLACEHOLDER:
                 kwargs[name] = value
-        return self.__class__(**kwargs)  # type: ignore
+        return self._copy_internal_state(self.__class__(**kwargs))  # type: ignore
+
+    def _copy_internal_state(self: T, new: T) -> T:
+        # The constructor derives these from its arguments; a copy keeps the
+        # original's presence flag and the unknown fields it received.
+        new.__dict__["_serialized_on_wire"] = self._serialized_on_wire
+        new.__dict__["_unknown_fields"] = self._unknown_fields
+        return new
 
     @classproperty
     def _betterproto(cls: type[Self]) -> ProtoClassMetadata:  # type: ignore
